@@ -36,7 +36,8 @@ Clauses == <<
       /\ (M.m \in {"resReadRaises", "resReadKeyError"} /\ M.p = "ok" => O.iserr /\ O.code = -32603)
       /\ (M.m = "toolsCallUnknown" /\ NameKnown(M.m, M.p) => O.iserr /\ O.code = -32602)
       /\ (M.m = "resReadUnknown" /\ M.p \in {"ok", "argsNull", "argsList"} => O.iserr /\ O.code = -32602)
-      /\ (M.m \in {"ping", "toolsList", "resourcesList", "customOk", "customAck", "customStray"} => ~O.iserr)>>,
+      /\ (M.m \in {"ping", "toolsList", "resourcesList", "customOk", "customAck", "customStray"} => ~O.iserr)
+      /\ (M.m \in {"toolsCallOk", "resReadOk"} /\ M.p = "ok" => ~O.iserr)>>,
   <<"Model", /\ ObsShape = Predicted.shape
              /\ (ObsShape = "response" => O.iserr = Predicted.iserr /\ (O.iserr => 0 - O.code = Predicted.code))>>
 >>
@@ -44,5 +45,13 @@ Clauses == <<
 TInit == tid \in 1..NT /\ msg = M /\ pc = "done" /\ out = None
 TNext == UNCHANGED <<vars, tid>>
 TSpec == TInit /\ [][TNext]_<<vars, tid>>
-Judge == (O.built => JudgeAll(tid, Clauses, Case.mclass)) /\ Accept(tid)
+\* what is handed to the dispatcher but is neither a request nor a notification (a stray response,
+\* a list, a message with neither method nor id): the statement only promises that dispatch does
+\* not raise and that its answer has the shape its callers unpack
+Strays == {"strayResponse", "strayError", "strayList", "strayEmptyList", "strayBare"}
+StrayClauses == <<
+  <<"NeverRaises", ~O.raised>>,
+  <<"AnswerIsAPair", ObsShape # "nonsense">>
+>>
+Judge == (O.built => JudgeAll(tid, IF Case.mclass \in Strays THEN StrayClauses ELSE Clauses, Case.mclass)) /\ Accept(tid)
 =============================================================================
